@@ -213,19 +213,29 @@ def _unpack_pre_snap_posts(
 
 
 def _assert_resolved_kwargs_valid(
-    postconditions: List[Contract], resolved_kwargs: Mapping[str, Any]
+    postconditions: List[Contract],
+    resolved_kwargs: Mapping[str, Any],
+    variadic_param_names: Optional[AbstractSet[str]] = None,
 ) -> Optional[TypeError]:
-    """Check that the resolved kwargs of a decorated function are valid."""
-    if postconditions:
-        if "result" in resolved_kwargs:
-            return TypeError(
-                "Unexpected argument 'result' in a function decorated with postconditions."
-            )
+    """
+    Check that the resolved kwargs of a decorated function are valid.
 
-        if "OLD" in resolved_kwargs:
-            return TypeError(
-                "Unexpected argument 'OLD' in a function decorated with postconditions."
-            )
+    :param postconditions: postconditions of the function
+    :param resolved_kwargs: resolved keyword arguments of the call
+    :param variadic_param_names:
+        names of the variadic parameters (``*args`` and ``**kwargs``) of the function; they shadow the reserved names
+        as the other parameters do, but they are among the resolved arguments only if something was passed to them
+    """
+    if postconditions:
+        for reserved in ("result", "OLD"):
+            if reserved in resolved_kwargs or (
+                variadic_param_names is not None and reserved in variadic_param_names
+            ):
+                return TypeError(
+                    "Unexpected argument {!r} in a function decorated with postconditions.".format(
+                        reserved
+                    )
+                )
 
     return None
 
@@ -795,6 +805,13 @@ def decorate_with_checker(func: CallableT) -> CallableT:
         if param.kind == inspect.Parameter.POSITIONAL_ONLY
     )
 
+    variadic_param_names = frozenset(
+        param.name
+        for param in sign.parameters.values()
+        if param.kind
+        in (inspect.Parameter.VAR_POSITIONAL, inspect.Parameter.VAR_KEYWORD)
+    )
+
     # Determine the default argument values
     kwdefaults = resolve_kwdefaults(sign=sign)
 
@@ -842,7 +859,7 @@ def decorate_with_checker(func: CallableT) -> CallableT:
                 )
 
                 type_error = _assert_resolved_kwargs_valid(
-                    postconditions, resolved_kwargs
+                    postconditions, resolved_kwargs, variadic_param_names
                 )
                 if type_error:
                     raise type_error
@@ -919,7 +936,9 @@ def decorate_with_checker(func: CallableT) -> CallableT:
                 )
 
                 type_error = _assert_resolved_kwargs_valid(
-                    postconditions=postconditions, resolved_kwargs=resolved_kwargs
+                    postconditions=postconditions,
+                    resolved_kwargs=resolved_kwargs,
+                    variadic_param_names=variadic_param_names,
                 )
                 if type_error:
                     raise type_error
